@@ -1,0 +1,17 @@
+//go:build verif
+
+package expanders
+
+// Contracts for the deductive checker in /verif (comment-only; compiled only under the verif tag).
+
+// expand_message_xmd (RFC 9380, 5.3.1/5.3.3): the domain separation tag is used AS GIVEN whenever it fits in one
+// length byte (len(DST) <= 255, including exactly 255); only a longer tag is replaced, and then by the hash of
+// "H2C-OVERSIZE-DST-" || DST (what the hash object returns after a reset and one write).
+//@ func (*Xmd).ExpandMessage
+//@   property C19
+//@   ghostvar hs V
+//@   assert before "bInBytes := uint(h.Size())": len(old(dst)) <= 255 ==> dst == old(dst)
+//@   assert before "bInBytes := uint(h.Size())": len(old(dst)) > 255 ==> dst == hsum(hs)
+//@   ghostset before "dst = h.Sum(nil)": hs = hst(h)
+//@   loop for(i <= ell)
+//@     invariant true
